@@ -141,6 +141,8 @@ def run_case(case):
                 finished[i] = 'cancelled'
                 raise
             del running[i]
+            if i in sigs and not sigs[i].done():
+                sigs[i].set_result(None)
             if r == 'cancel':
                 finished[i] = 'selfcancel'
                 selfcancelled.append(i)
@@ -154,12 +156,17 @@ def run_case(case):
 
         outcome = {}
         online = {}
+        chasers = []
+        sigs = {}
 
         async def outer():
             try:
                 return await holding(outer_body)
             finally:
                 at_return['busy'] = sorted(set(running) | set(cleaning))
+                # (online pool: a submitted task that has not even started counts as work left behind, too)
+                at_return['busy'] += [f'pool-task#{k}' for k, t in enumerate(online.get('tasks', [])) if not t.done()
+                                      and not at_return['busy']]
 
         async def outer_body():
             if True:
@@ -190,6 +197,24 @@ def run_case(case):
                         online['in_body'] = True
                         ts = [pool.call(leaf, i) for i in range(n)]
                         online['tasks'] = ts
+
+                        async def chaser(t, j):
+                            # somebody outside the block who holds the pool submits follow-up work when a task finishes (how the
+                            # pool is used for recursive listings): this can land between the last task's completion and the
+                            # resumption of the exiting coroutine
+                            try:
+                                await sigs.setdefault(j % n, loop.create_future())     # resolved by the leaf just before it returns
+                            except asyncio.CancelledError:
+                                return
+                            try:
+                                ts.append(pool.call(leaf, 2000 + j))
+                                classes.add('follow_up_submitted_from_outside')
+                            except U.PoolShutdownError:
+                                pass
+                        for j in case.get('chase', []):
+                            if n:
+                                sigs.setdefault(j % n, loop.create_future())
+                                chasers.append(loop.create_task(chaser(ts[j % n], j)))
                         sub = [ts[j % n] for j in case.get('wait', [])] if n else []
                         if sub:
                             await pool.wait(sub)
@@ -303,6 +328,23 @@ def run_case(case):
                             fails.append(('return-exc-slot', 'every result or exception is returned in place',
                                           f'slot {i}: {pair!r} but leaf finished {st}'))
                             break
+            if shape == 'return_exc' and not cancelled_outer and selfcancelled:
+                # a task that raises CancelledError itself is one more failure pattern: return_exceptions mode returns it in place
+                # (the helper catches every exception of a task) and the call itself neither raises nor is cancelled
+                if outer_task.cancelled() or exc is not None:
+                    fails.append(('return-exc-raised', 'return_exceptions mode never raises',
+                                  f'leaf(s) {selfcancelled} raised CancelledError themselves; the call ended with '
+                                  f'{"CancelledError" if outer_task.cancelled() else repr(exc)}'))
+                else:
+                    for i, pair in enumerate(res):
+                        st = finished.get(i)
+                        okp = (st == 'ok' and pair == (('v', i), None)) or \
+                              (st == 'err' and pair[0] is None and isinstance(pair[1], Err) and pair[1].args[0] == i) or \
+                              (st == 'selfcancel' and pair[0] is None and isinstance(pair[1], asyncio.CancelledError))
+                        if not okp:
+                            fails.append(('return-exc-slot', 'every result or exception is returned in place',
+                                          f'slot {i}: {pair!r} but leaf finished {st}'))
+                            break
             if shape == 'tree' and not cancelled_outer and not selfcancelled:
                 if exc is not None:
                     fails.append(('return-exc-raised', 'return_exceptions mode never raises', repr(exc)))
@@ -347,6 +389,9 @@ def run_case(case):
                     sig = 'online-exit-wait-cancelled-leaves-tasks'
                 fails.append((sig, 'cancels the remaining work when asked to and leaves no task running after it returns',
                               f'helper handed control back while leaves {at_return["busy"]} were still running / cleaning up'))
+            for ch in chasers:
+                ch.cancel()
+            loop.settle()
             # no task left running (all modes once every gate has been completed and the loop drained)
             left = [t for t in asyncio.all_tasks(loop) if not t.done()]
             if left:
@@ -421,6 +466,7 @@ def run_shard(spec, seed, tier):
         if shape == 'online':
             c['wait'] = draw(st.lists(st.integers(0, 7), max_size=3))
             c['body_raises'] = draw(st.booleans())
+            c['chase'] = draw(st.lists(st.integers(0, 7), max_size=2, unique=True))
         c['plan'] = draw(st.lists(step if draw(st.integers(0, 4)) == 0 else stepnc, max_size=20))
         return c
     search(res, PROPERTY, cases(), run_case, spec['n'], seed)
